@@ -178,5 +178,6 @@ fn main() {
         id += 1;
     }
     file.flush().unwrap();
+    vharness::evalx::exit_on_build_failures("c15");
     eprintln!("c15: {id} programs");
 }
